@@ -1,31 +1,36 @@
 ---------------------------- MODULE MC_LoadScript ----------------------------
-(* Scenario space of C03 / C05 / C07 for the MessagePack archive, explored by   *)
-(* TLC: a document (abstract value + chosen legal encoding, optionally damaged) *)
-(* and a request script that grows by one operation per step.  Every reachable  *)
-(* state is one scenario; it is exported together with the observation the      *)
-(* abstract semantics (LoadScript!Exec) prescribes.                             *)
+(* Scenario spaces of C03 / C05 / C07 (MessagePack archive), explored by TLC.   *)
+(* Every reachable state is one scenario: a document (abstract value + a legal  *)
+(* encoding chosen by the width policy, optionally damaged), a request script   *)
+(* and the policies.  It is exported with the observation that the abstract     *)
+(* semantics (LoadScript!Exec) prescribes, and the property-level statements    *)
+(* are checked on the abstract semantics itself in every state.                 *)
+(*   Mode "fields": the script grows by one request per step          (C03)     *)
+(*   Mode "skip"  : one more value is replaced by an offending value  (C05)     *)
+(*   Mode "typed" : value x encoding x target; damage = cut / corrupt (C07)     *)
 EXTENDS LoadScript, MsgPackCorpus, Json
 
-CONSTANTS Mode,        \* "fields" (C03) | "skip" (C05) | "typed" (C07)
-          MaxOps,      \* length bound of request scripts
-          Widths,      \* width policies of the independent encoder
-          Pads         \* lengths of the filler string placed before the object (shifts it across window boundaries)
+CONSTANTS Mode, MaxOps, Widths, Pads,
+          TypedTargets,    \* typed mode: target types explored
+          CorruptBytes     \* typed mode: byte values written over each position of the encoding ({} = no corruption)
 
 VARIABLES doc,     \* abstract document (root value)
-          w,       \* width policy used to encode it
-          ops,     \* request script built so far (sequence of op records; object-scope level)
+          w,       \* width policy of the independent encoder
+          root,    \* request script
           pol,     \* policies
-          tcase    \* typed mode: [v, t]
+          aux      \* mode specific: fields: ops so far; skip: [clean, done]; typed: [cut]
 
-vars == <<doc, w, ops, pol, tcase>>
+vars == <<doc, w, root, pol, aux>>
 
 S(x) == <<"str", x>>
 Ka == <<97>>  Kb == <<98>>  Kc == <<99>>  Kz == <<122>>
 
 ThrowPol == [mm |-> "throw", ov |-> "throw"]
 SkipPol  == [mm |-> "skip", ov |-> "skip"]
+MixPol   == [mm |-> "skip", ov |-> "throw"]
 
-\* ---- C03 documents: objects with up to 3 distinct keys, followed by a sentinel --------------------------
+-----------------------------------------------------------------------------
+(* Mode "fields" (C03) *)
 FieldValues == { U(5), S(<<120, 121>>), <<"nil">>, <<"arr", <<U(1), U(2)>>>>,
                  <<"map", <<<<S(<<110>>), U(9)>>, <<S(<<109>>), S(<<113>>)>>>>>>,
                  S(Run(115, 20)) }           \* a 20-byte string: larger than the 8-byte model window
@@ -37,7 +42,6 @@ Objs ==
   \cup { <<"map", <<<<S(Kb), U(6)>>, <<S(Ka), x>>, <<S(Kc), y>>>>>> : x \in FieldValues, y \in {<<"nil">>, S(Run(115, 20))} }
   \cup { <<"map", <<<<U(1), U(10)>>, <<U(-2), S(<<120>>)>>, <<S(Ka), U(7)>>>>>> }
 
-\* request alphabet at object level
 ReqOps ==
   { [op |-> "req", ks |-> k, t |-> t] : k \in {Ka, Kb, Kc, Kz}, t \in {"i32", "str"} }
   \cup { [op |-> "visit"] }
@@ -47,34 +51,167 @@ ReqOps ==
                                                        <<[op |-> "elem", t |-> "i32"], [op |-> "elem", t |-> "i32"], [op |-> "isend"]>> } }
   \cup { [op |-> "req", ki |-> 1, t |-> "i32"], [op |-> "req", ki |-> -2, t |-> "str"] }
 
-Root == [k |-> "arr", ops |-> <<[op |-> "elem", t |-> "str"], [op |-> "obj", ops |-> ops], [op |-> "elem", t |-> "i32"]>>]
-DocValueP(p) == <<"arr", <<S(Run(112, p)), doc, U(7)>>>>
-DocValue == DocValueP(0)
+FieldsRoot(ops) == [k |-> "arr", ops |-> <<[op |-> "elem", t |-> "str"], [op |-> "obj", ops |-> ops], [op |-> "elem", t |-> "i32"]>>]
+Padded(d, p) == <<"arr", <<S(Run(112, p)), d, U(7)>>>>
 
-Init == /\ Mode = "fields"
-        /\ doc \in Objs
-        /\ w \in Widths
-        /\ ops = <<>>
-        /\ pol \in {ThrowPol, SkipPol}
-        /\ tcase = <<>>
+InitFields == /\ doc \in Objs
+              /\ w \in Widths
+              /\ root = FieldsRoot(<<>>)
+              /\ pol \in {ThrowPol, SkipPol}
+              /\ aux = <<>>
 
-Next == /\ Len(ops) < MaxOps
-        /\ \E o \in ReqOps : ops' = Append(ops, o)
-        /\ UNCHANGED <<doc, w, pol, tcase>>
+NextFields == /\ Len(aux) < MaxOps
+              /\ \E o \in ReqOps : aux' = Append(aux, o) /\ root' = FieldsRoot(Append(aux, o))
+              /\ UNCHANGED <<doc, w, pol>>
 
+-----------------------------------------------------------------------------
+(* Mode "skip" (C05): well-typed documents, values replaced by offending ones *)
+
+\* replace the value at `path` (sequence of child indices: array element index / map pair index)
+RECURSIVE ReplaceAt(_, _, _)
+ReplaceAt(v, path, x) ==
+  IF path = <<>> THEN x
+  ELSE IF v[1] = "arr" THEN <<"arr", [v[2] EXCEPT ![path[1]] = ReplaceAt(@, Tail(path), x)]>>
+  ELSE <<"map", [v[2] EXCEPT ![path[1]] = <<@[1], ReplaceAt(@[2], Tail(path), x)>>]>>
+
+I40 == <<"int", FALSE, <<0, 0, 1, 0, 0, 0, 0, 0>>>>       \* 2^40: out of range for every 32-bit target
+Offences == { S(<<122>>), <<"arr", <<U(9)>>>>, <<"map", <<<<S(<<113>>), U(1)>>>>>>, <<"nil">>, I40, <<"bin", <<1, 2>>>>,
+              <<"f64", <<63, 248, 0, 0, 0, 0, 0, 0>>>>, <<"bool", TRUE>> }
+
+Rec(x, y) == <<"map", <<<<S(<<120>>), x>>, <<S(<<121>>), y>>>>>>
+RecOps == <<[op |-> "req", ks |-> <<120>>, t |-> "i32"], [op |-> "req", ks |-> <<121>>, t |-> "str"]>>
+
+\* shape 1: object holding an array of scalars, a string and a number, loaded into typed containers
+Shape1 == [doc |-> <<"map", <<<<S(<<118>>), <<"arr", <<U(1), U(2), U(3)>>>>>>, <<S(<<115>>), S(<<120>>)>>, <<S(<<110>>), U(5)>>>>>>,
+           root |-> [k |-> "obj", ops |-> <<[op |-> "req", ks |-> <<118>>, t |-> "vec_i32"], [op |-> "req", ks |-> <<115>>, t |-> "str"],
+                                           [op |-> "req", ks |-> <<110>>, t |-> "i32"]>>],
+           paths |-> {<<1, 1>>, <<1, 2>>, <<1, 3>>, <<1>>, <<2>>, <<3>>}]
+\* shape 2: array of objects read element by element, followed by a sentinel
+Shape2 == [doc |-> <<"arr", <<Rec(U(1), S(<<112>>)), Rec(U(2), S(<<113>>)), U(7)>>>>,
+           root |-> [k |-> "arr", ops |-> <<[op |-> "obj", ops |-> RecOps], [op |-> "obj", ops |-> RecOps], [op |-> "elem", t |-> "i32"]>>],
+           paths |-> {<<1>>, <<2>>, <<1, 1>>, <<1, 2>>, <<2, 1>>, <<2, 2>>}]
+\* shape 3: byte containers (as bin and as array of small integers) and nested arrays inside an array
+Shape3 == [doc |-> <<"arr", <<<<"bin", <<1, 2, 3>>>>, <<"arr", <<U(4), U(5)>>>>, <<"arr", <<<<"arr", <<U(1)>>>>, <<"arr", <<U(2), U(3)>>>>>>>>, U(7)>>>>,
+           root |-> [k |-> "arr", ops |-> <<[op |-> "elem", t |-> "vec_u8"], [op |-> "elem", t |-> "vec_u8"], [op |-> "elem", t |-> "vec_vec_i32"],
+                                           [op |-> "elem", t |-> "i32"]>>],
+           paths |-> {<<1>>, <<2>>, <<2, 1>>, <<3>>, <<3, 1>>, <<3, 2, 1>>}]
+\* shape 4: scalars in an array loaded one by one into different targets (positions of the neighbours)
+Shape4 == [doc |-> <<"arr", <<U(1), S(<<120>>), <<"f64", <<63, 248, 0, 0, 0, 0, 0, 0>>>>, U(300), U(7)>>>>,
+           root |-> [k |-> "arr", ops |-> <<[op |-> "elem", t |-> "i32"], [op |-> "elem", t |-> "str"], [op |-> "elem", t |-> "f64"],
+                                           [op |-> "elem", t |-> "u8"], [op |-> "elem", t |-> "i32"]>>],
+           paths |-> {<<1>>, <<2>>, <<3>>, <<4>>}]
+Shapes == {Shape1, Shape2, Shape3, Shape4}
+
+InitSkip == /\ \E sh \in Shapes : doc = sh.doc /\ root = sh.root /\ aux = [clean |-> sh.doc, todo |-> sh.paths, done |-> {}]
+            /\ w \in Widths
+            /\ pol \in {SkipPol, MixPol}
+
+\* a path may be replaced only when no prefix of it was replaced before (the position must still exist)
+PrefixOf(a, b) == Len(a) <= Len(b) /\ SubSeq(b, 1, Len(a)) = a
+NextSkip == /\ Cardinality(aux.done) < MaxOps
+            /\ \E p \in aux.todo, x \in Offences :
+                  /\ \A q \in aux.done : ~PrefixOf(q, p) /\ ~PrefixOf(p, q)
+                  /\ doc' = ReplaceAt(doc, p, x)
+                  /\ aux' = [aux EXCEPT !.todo = @ \ {p}, !.done = @ \cup {p}]
+            /\ UNCHANGED <<w, root, pol>>
+
+-----------------------------------------------------------------------------
+(* Mode "typed" (C07): every corpus value in every legal width into every target, whole and truncated *)
+Targets == {"bool", "i8", "u8", "i16", "u16", "i32", "u32", "i64", "u64", "f32", "f64", "str", "null", "tp_ns", "vec_u8", "vec_i32"}
+
+TypedRoots(T) == { [k |-> "leaf", t |-> T],
+                   [k |-> "arr", ops |-> <<[op |-> "elem", t |-> T], [op |-> "elem", t |-> "i32"]>>],
+                   [k |-> "obj", ops |-> <<[op |-> "req", ks |-> Ka, t |-> T], [op |-> "req", ks |-> Kb, t |-> "i32"]>>] }
+Wrap(v, r) == IF r.k = "leaf" THEN v ELSE IF r.k = "arr" THEN <<"arr", <<v, U(7)>>>> ELSE <<"map", <<<<S(Ka), v>>, <<S(Kb), U(7)>>>>>>
+
+TypedCorpus == ScalarCorpus \cup { <<"arr", <<U(1), U(200), U(-3)>>>>, <<"arr", <<>>>>, <<"arr", <<U(1), S(<<122>>)>>>>, <<"map", <<<<S(Ka), U(1)>>>>>> }
+
+InitTyped == /\ \E v \in TypedCorpus, T \in (IF TypedTargets = {} THEN Targets ELSE TypedTargets) : \E r \in TypedRoots(T) : doc = Wrap(v, r) /\ root = r
+             /\ w \in Widths
+             /\ pol \in {ThrowPol, SkipPol}
+             /\ aux = [cut |-> 0, ci |-> 0, cb |-> 0]
+
+\* damage: truncate the encoding by one more byte per step (cut = number of bytes removed), up to MaxOps bytes;
+\* or overwrite one byte of the intact encoding
+NextTyped == \/ /\ aux.ci = 0 /\ aux.cut < MaxOps /\ aux.cut + 1 < Len(Enc(doc, w))
+                /\ aux' = [aux EXCEPT !.cut = @ + 1]
+                /\ UNCHANGED <<doc, w, root, pol>>
+             \/ /\ aux.ci = 0 /\ aux.cut = 0 /\ Len(Enc(doc, w)) <= 24
+                /\ \E i \in 1..Len(Enc(doc, w)), b \in CorruptBytes :
+                      /\ Enc(doc, w)[i] # b
+                      /\ aux' = [aux EXCEPT !.ci = i, !.cb = b]
+                /\ UNCHANGED <<doc, w, root, pol>>
+
+-----------------------------------------------------------------------------
+Init == IF Mode = "fields" THEN InitFields ELSE IF Mode = "skip" THEN InitSkip ELSE InitTyped
+Next == IF Mode = "fields" THEN NextFields ELSE IF Mode = "skip" THEN NextSkip ELSE NextTyped
 Spec == Init /\ [][Next]_vars
 
-Expected == Exec(DocValue, Root, pol)
+Expected == Exec(doc, root, pol)
 
-\* A-level sanity of the abstract semantics itself (checked in every state):
-\* unread and absent fields never disturb the sentinel: whenever the run completes, its last event is the sentinel 7
-SentinelIntact == LET e == Expected IN
-  e.exc = <<"none">> => e.ev[Len(e.ev)] = <<"elem", TRUE, U(7)>>
-\* a failing request leaves its target unchanged
-UnchangedOnFailure == LET e == Expected IN
+\* ---- property-level statements checked on the abstract semantics in every state ------------------------
+\* C03: unread and absent fields never disturb the data that follows the object
+SentinelIntact == Mode = "fields" =>
+  LET e == Exec(Padded(doc, 0), root, pol) IN e.exc = <<"none">> => e.ev[Len(e.ev)] = <<"elem", TRUE, U(7)>>
+\* C03: a failing request leaves its target unchanged
+UnchangedOnFailure == Mode = "fields" =>
+  LET e == Exec(Padded(doc, 0), root, pol) IN
   \A i \in 1..Len(e.ev) : (e.ev[i][1] = "req" /\ e.ev[i][2] = FALSE) => e.ev[i][3] \in {Prior("i32"), Prior("str")}
+\* C05: with the Skip policies, replacing values by offending ones never raises an error ...
+SkipNeverThrows == (Mode = "skip" /\ pol = SkipPol) => Expected.exc = <<"none">>
+\* ... and the number and kind of events stay those of the clean document (neighbours keep their position)
+SkipKeepsShape == (Mode = "skip" /\ pol = SkipPol) =>
+  LET e == Expected c == Exec(aux.clean, root, pol) IN
+  e.ev[Len(e.ev)][1] = c.ev[Len(c.ev)][1] /\ (root.k = "arr" => e.ev[Len(e.ev)] = c.ev[Len(c.ev)])
 
-Export == Len(ops) >= 1 =>
-  \A p \in Pads :
-    PrintT(<<"GEN", ToJson([doc |-> Enc(DocValueP(p), w), pad |-> p, root |-> Root, pol |-> pol, exp |-> Exec(DocValueP(p), Root, pol)])>>)
+EncDoc(d) == LET e == Enc(d, w) IN
+  IF Mode # "typed" THEN e
+  ELSE IF aux.ci # 0 THEN [e EXCEPT ![aux.ci] = aux.cb]
+  ELSE SubSeq(e, 1, Len(e) - aux.cut)
+
+\* documents whose load result this specification leaves open: duplicate or exotic map keys, invalid nanoseconds
+RECURSIVE Exotic(_)
+Exotic(v) ==
+  IF v[1] = "ts" THEN v[4] < 0 \/ v[4] > 999999999
+  ELSE IF v[1] = "arr" THEN \E i \in 1..Len(v[2]) : Exotic(v[2][i])
+  ELSE IF v[1] = "map" THEN
+       \/ \E i \in 1..Len(v[2]) : Exotic(v[2][i][2]) \/ v[2][i][1][1] \notin {"str", "int"}
+       \/ \E i, j \in 1..Len(v[2]) : i < j /\ v[2][i][1] = v[2][j][1]
+  ELSE FALSE
+
+CorruptExpect ==
+  LET r == Decode(EncDoc(doc), 1) IN
+  IF r.ok THEN (IF Exotic(r.v) THEN [ev |-> <<>>, exc |-> <<"unspecified">>] ELSE Exec(r.v, root, pol))
+  ELSE [ev |-> <<>>, exc |-> <<"damaged", IF r.err = "count" THEN "*count" ELSE "*">>]
+
+\* what a typed load of a *damaged* document may report: ParsingError, or the policy error the intact prefix already justifies
+DamageExpect == LET e == Expected IN
+  IF e.exc = <<"unspecified">> THEN e
+  ELSE [ev |-> <<>>, exc |-> <<"damaged", IF e.exc[1] = "ser" THEN e.exc[2] ELSE "">>]
+
+\* expectation under the named deviation(s) of the reader, exported only when it differs
+DevExpected ==
+  IF Mode = "typed" /\ aux.ci # 0 THEN
+       LET r == DecodeX(EncDoc(doc), 1, TRUE) n == Decode(EncDoc(doc), 1) IN
+       IF r.ok /\ n.ok /\ r.v # n.v
+       THEN <<[dev |-> "Dev_Timestamp96FieldOrder", exp |-> IF Exotic(r.v) THEN [ev |-> <<>>, exc |-> <<"unspecified">>] ELSE Exec(r.v, root, pol)]>>
+       ELSE <<>>
+  ELSE LET d == DevTs96View(doc, w) IN
+       IF d = doc THEN <<>>
+       ELSE IF Mode = "typed" /\ aux.cut > 0 THEN
+            LET e == Exec(d, root, pol) IN
+            <<[dev |-> "Dev_Timestamp96FieldOrder",
+               exp |-> IF e.exc = <<"unspecified">> THEN e ELSE [ev |-> <<>>, exc |-> <<"damaged", IF e.exc[1] = "ser" THEN e.exc[2] ELSE "">>]]>>
+       ELSE <<[dev |-> "Dev_Timestamp96FieldOrder", exp |-> Exec(d, root, pol)]>>
+
+Export ==
+  IF Mode = "fields" THEN
+     Len(aux) >= 1 => \A p \in Pads :
+        PrintT(<<"GEN", ToJson([doc |-> Enc(Padded(doc, p), w), root |-> root, pol |-> pol, exp |-> Exec(Padded(doc, p), root, pol)])>>)
+  ELSE IF Mode = "skip" THEN
+     PrintT(<<"GEN", ToJson([doc |-> Enc(doc, w), root |-> root, pol |-> pol, exp |-> Expected, expdev |-> DevExpected])>>)
+  ELSE
+     PrintT(<<"GEN", ToJson([doc |-> EncDoc(doc), root |-> root, pol |-> pol, cut |-> aux.cut,
+                             exp |-> IF aux.ci # 0 THEN CorruptExpect ELSE IF aux.cut = 0 THEN Expected ELSE DamageExpect,
+                             expdev |-> DevExpected])>>)
 =============================================================================
